@@ -52,7 +52,9 @@ def run(ids):
         meta["detected"] = det["exit"] == 1 and any(l.startswith("VIOLATION") for l in det["lines"])
         meta["with_failing_input"] = any(l.startswith("VIOLATION") and "no-failing-input-found" not in l for l in det["lines"])
         json.dump(meta, open(os.path.join(d, "meta.json"), "w"), indent=1)
-        print(name, "DETECTED" if meta["detected"] else "MISSED", "(failing input)" if meta["with_failing_input"] else "", det["lines"][-1:] )
+        verdict = "DETECTED" if meta["detected"] else (
+            "NEUTRALISED-BY-FIX" if meta.get("neutralised_by_fix") else "MISSED")
+        print(name, verdict, "(failing input)" if meta["with_failing_input"] else "", det["lines"][-1:] )
         out[name] = meta["detected"]
     return out
 
@@ -75,8 +77,11 @@ def table():
                 t = "broke" if mm.group(1) != "ok" else "ok"
                 c = "broke" if mm.group(2) != "ok" else "ok"
                 pv = mm.group(3)
+        last = 'yes' if m.get('with_failing_input') else (
+            'no longer a defect (see meta)' if m.get('neutralised_by_fix')
+            else 'no')
         print(f"| {name} | {m.get('needs', '')[:100]} | {t} | {c} | {pv} | "
-              f"{'yes' if m.get('with_failing_input') else 'no'} |")
+              f"{last} |")
 
 
 if __name__ == "__main__":
